@@ -174,6 +174,23 @@ def r3(rr, repo):
         imgs = [a for a in ast.walk(w) if isinstance(a, ast.Assign) and any(isinstance(t, ast.Name) and t.id == 'img' for t in a.targets)]
         oki = bool(imgs) and isinstance(imgs[0].value, ast.IfExp) and U(imgs[0].value.test) == name and U(imgs[0].value.body) == 'frame.jpg' and 'frame.image' in U(imgs[0].value.orelse)
         rr.ob('img = frame.jpg if do_jpg else <buffer of frame.image>', oki, mod, imgs[0] if imgs else w, key='img-choice')
+        if oki:
+            raw = imgs[0].value.orelse
+            # the reader rebuilds the array with np.frombuffer(...).reshape(declared shape): that is C (row-major)
+            # order of the *logical* array, so the writer must serialise frame.image in logical C order
+            c_order_idioms = ('bytearray(memoryview(frame.image))', 'bytes(memoryview(frame.image))', 'memoryview(frame.image)', 'frame.image.tobytes()',
+                              "frame.image.tobytes('C')", "frame.image.tobytes(order='C')", 'np.ascontiguousarray(frame.image)', 'bytearray(frame.image)', 'bytes(frame.image)',
+                              'bytearray(memoryview(np.ascontiguousarray(frame.image)))', 'memoryview(np.ascontiguousarray(frame.image))')
+            txt = U(raw)
+            memory_order = any(isinstance(k, ast.keyword) and k.arg == 'order' and not (isinstance(k.value, ast.Constant) and k.value.value == 'C') for c in ast.walk(raw) if isinstance(c, ast.Call) for k in c.keywords) \
+                or any(isinstance(c, ast.Call) and isinstance(c.func, ast.Attribute) and c.func.attr in ('ravel', 'flatten', 'tobytes', 'reshape') and c.args and isinstance(c.args[-1], ast.Constant) and c.args[-1].value in ('K', 'F', 'A') for c in ast.walk(raw)) \
+                or any(isinstance(a, ast.Attribute) and a.attr in ('T', 'data', 'base') for a in ast.walk(raw))
+            if memory_order:
+                rr.violated('the raw image is serialised in memory order / through a view that ignores the logical (row-major) order the reader reshapes with: permuted-axis images arrive scrambled', mod, imgs[0], witness=txt, key='raw-order')
+            elif txt in c_order_idioms:
+                rr.holds('the raw image is serialised in logical C order (buffer of the array itself)', mod, imgs[0], witness=txt, key='raw-order')
+            else:
+                rr.unresolved(f'raw serialisation idiom not in the table of known C-order forms: {txt}', mod, imgs[0], key='raw-order')
         encs = [a for a in ast.walk(w) if isinstance(a, ast.Assign) and isinstance(a.value, ast.IfExp) and q.const_str(a.value.body) == 'jpg']
         oke = bool(encs) and (U(encs[0].value.test) == name or (isinstance(encs[0].value.test, ast.NamedExpr) and encs[0].value.test.target.id == name)) and q.const_str(encs[0].value.orelse) == 'raw'
         rr.ob("the declared encoding is 'jpg' under the same decision and 'raw' otherwise", oke, mod, encs[0] if encs else w, key='enc-choice')
